@@ -439,7 +439,8 @@ class IndentationFeatures(object):
             id000 = np.argmin(np.abs(xin - cp))
             id025 = int(id000 + .25 * (id100 - id000))
             idmin, idmax = min(id025, id100), max(id025, id100)
-            if idmin != idmax:
+            if idmax - idmin > 1:
+                # (two points are needed: both halves must be non-empty)
                 # find zeros
                 idcen = idmin + (idmax - idmin) // 2
                 smooth = ndimage.gaussian_filter1d(yin - fit, sigma=11)
